@@ -98,7 +98,11 @@ func NewBackend(name string, cfg Config, pol Policy) *Backend {
 	}
 	b.maps = make([]Mapper, len(MapInsts))
 	b.evT = [NumEv]ecs.EventType{ecs.OnCreateEntity, ecs.OnRemoveEntity, ecs.OnAddComponents, ecs.OnRemoveComponents, ecs.OnSetComponents, ecs.OnAddRelations, ecs.OnRemoveRelations}
+	// the first and the last of the 249 possible custom event types
 	b.evT[EvCustom0] = b.evReg.NewEventType()
+	for i := 0; i < 247; i++ {
+		b.evReg.NewEventType()
+	}
 	b.evT[EvCustom1] = b.evReg.NewEventType()
 	b.all = ecs.NewFilter0(b.W)
 	return b
